@@ -175,6 +175,9 @@ def r2_2(ctx):
         w = dl[0].args[1] if len(dl[0].args) > 1 else kwarg(dl[0], "width")
         ctx.check(w is not None and norm(w) == "width", f.fq, short(dl[0]), f"{m.relpath}:{dl[0].lineno}", "break computation uses the requested width", "divide_line is not given the requested width")
         fo = kwarg(dl[0], "fold")
+        if fo is not None:
+            from ..astutil import inline as _inl, single_defs as _sdf
+            fo = _inl(fo, _sdf(f.node), keep=("wrap_overflow",))
         ctx.check(fo is not None and norm(fo) == "wrap_overflow == 'fold'", f.fq, short(dl[0]), f"{m.relpath}:{dl[0].lineno}", "long words are folded exactly for overflow='fold'", "fold is not tied to overflow == 'fold'")
     # tabs are expanded (statement order in the loop body) before the break offsets are measured
     def stmt_index(pred):
@@ -317,6 +320,21 @@ def r2_4(ctx):
         if ok:
             a, b, c3 = ys[0].value.elts
             ok = norm(a) == s_name and norm(b) == e_name and norm(inline(c3, sd, keep=(s_name, e_name))) in (f"{mv}.group(0)", f"{mv}.group()", f"text[{s_name}:{e_name}]")
+    if not matches:
+        # finditer form: equal to anchored matching exactly because the word pattern is \s*\S+\s* (a match swallows all the
+        # whitespace after the word, so the next non-space character - where a search finds the next match - is where it ended)
+        from .. import regexast as _rx
+        rw = _rx.compile_call(m.global_assign("re_word")) if hasattr(m, "global_assign") else None
+        wm = ctx.repo.mod("_wrap")
+        rw = _rx.compile_call(wm.global_assign("re_word"))
+        pat_ok = rw is not None and rw.args[0].value == "\\s*\\S+\\s*"
+        loops_ = [x for x in walk_local(w.node) if isinstance(x, ast.For) and norm(x.iter) == "re_word.finditer(text)" and isinstance(x.target, ast.Name)]
+        ok = pat_ok and len(loops_) == 1
+        if ok:
+            mv = loops_[0].target.id
+            ys = [y for y in walk_local(w.node) if isinstance(y, ast.Yield)]
+            sd = single_defs(w.node)
+            ok = len(ys) == 1 and isinstance(ys[0].value, ast.Tuple) and len(ys[0].value.elts) == 3 and [norm(inline(e, sd)) for e in ys[0].value.elts][:2] == [f"{mv}.start()", f"{mv}.end()"] and norm(inline(ys[0].value.elts[2], sd)) in (f"{mv}.group(0)", f"{mv}.group()") and len(loops_[0].body) == 1
     ctx.check(ok, w.fq, "words()", w.where, "words are consecutive regex matches (each anchored where the previous ended), yielded with their own span", "words() no longer yields consecutive matches anchored at the previous end together with their span: characters between words are skipped or offsets no longer index the text")
 
 
@@ -338,7 +356,8 @@ def r2_6(ctx):
         ok = isinstance(a, ast.Call) and norm(a.func) == "min" and len(a.args) == 2
         if ok:
             forms = sorted(norm(x) for x in a.args)
-            ws = [x for x in forms if x in ("len(_re_whitespace.search(self.plain).group(0))", "len(_re_whitespace.search(self.plain).group())")]
+            M_ = "_re_whitespace.search(self.plain)"
+            ws = [x for x in forms if x in (f"len({M_}.group(0))", f"len({M_}.group())", f"{M_}.end() - {M_}.start()", f"{M_}.end(0) - {M_}.start(0)")]
             ex = [x for x in forms if x in ("len(self) - size", "self._length - size", "len(self.plain) - size")]
             ok = len(ws) == 1 and len(ex) == 1
         detail = norm(a)
